@@ -35,7 +35,8 @@ def rich_models():
                     R(1, 2, [F('X1'), F('X2')]), R(2, 3, [F('Y1'), F('Y2'), F('Y3')])], abstract=True,
              attrs=[('a', fz(1)), ('b', fz(None)), ('c', fz({'k': [1, 'x']}))]),
            [('c1', ('IMPLIES', ('AND', 'Bb', ('OR', 'Dc', 'X1')), ('NOT', ('EQUIVALENCE', 'X2', 'Bb'), None))),
-            ('c2', ('GREATER', ('ADD', 'Bb.att', ('MUL', 3, 'Dc.att')), ('SUM', 'att', 'Fa')))])
+            ('c2', ('GREATER', ('ADD', 'Bb.att', ('MUL', 3, 'Dc.att')), ('SUM', 'att', 'Fa'))),
+            ('c3', ('GREATER_EQUALS', 'Fa.a', 0))])
     m2 = M(F('Root', [R(1, 1, [F('A b', [R(1, 1, [F('C1'), F('C2'), F('C3')])], attrs=[('cost', fz(2.5)), ('on', fz(True))])]),
                       R(0, 1, [F('Dd', ftype='String')]), R(0, 1, [F('Ee', ftype='Real', fcard=(0, 3))]),
                       R(1, -1, [F('G1'), F('G2')])]),
